@@ -25,7 +25,9 @@ EXTENDS Integers, Sequences, FiniteSets, TLC, BigInt
 CONSTANTS Rows,      \* the kind table
           Classes,   \* abstract payload/checksum classes explored per row (Leg A)
           Cases,     \* concrete inputs (Leg B): <<"enc", hp, payload, ck>> | <<"dec", text>>
-          Deep       \* TRUE: also compare with the digit-by-digit definitions on every input
+          Deep,      \* TRUE: also compare with the digit-by-digit definitions on every input
+          OKRows,    \* claimed set of consistent rows   } TLC does not keep definitions that depend on
+          TableOK    \* claimed: no two rows overlap     } Rows, so both are passed in and verified once
 
 HP(i) == Rows[i][1]
 ELen(i) == Rows[i][2]
@@ -45,10 +47,16 @@ DropS(s, n) == IF n >= Len(s) THEN <<>> ELSE SubSeq(s, n + 1, Len(s))
 \* "123456789ABCDEFGHJKLMNPQRSTUVWXYZabcdefghijkmnopqrstuvwxyz" (no 0 O I l)
 Alphabet == [i \in 1..9 |-> 48 + i] \o [i \in 1..8 |-> 64 + i] \o [i \in 1..5 |-> 73 + i]
             \o [i \in 1..11 |-> 79 + i] \o [i \in 1..11 |-> 96 + i] \o [i \in 1..14 |-> 108 + i]
-One == Alphabet[1]
-DigitOf(c) == IF \E i \in 1..58 : Alphabet[i] = c THEN (CHOOSE i \in 1..58 : Alphabet[i] = c) - 1 ELSE -1
+One == 49
+CharOf(d) == IF d < 9 THEN 49 + d ELSE IF d < 17 THEN 56 + d ELSE IF d < 22 THEN 57 + d
+             ELSE IF d < 33 THEN 58 + d ELSE IF d < 44 THEN 64 + d ELSE 65 + d
+DigitOf(c) == IF c >= 49 /\ c <= 57 THEN c - 49 ELSE IF c >= 65 /\ c <= 72 THEN c - 56
+              ELSE IF c >= 74 /\ c <= 78 THEN c - 57 ELSE IF c >= 80 /\ c <= 90 THEN c - 58
+              ELSE IF c >= 97 /\ c <= 107 THEN c - 64 ELSE IF c >= 109 /\ c <= 122 THEN c - 65 ELSE -1
+AlphabetRight == /\ Len(Alphabet) = 58 /\ \A d \in 0..57 : CharOf(d) = Alphabet[d + 1] /\ DigitOf(Alphabet[d + 1]) = d
+                 /\ \A c \in 0..255 : DigitOf(c) >= 0 => \E d \in 0..57 : Alphabet[d + 1] = c
 AllDigits(s) == \A j \in DOMAIN s : DigitOf(s[j]) >= 0
-Chars(ds) == [i \in 1..Len(ds) |-> Alphabet[ds[i] + 1]]
+Chars(ds) == [i \in 1..Len(ds) |-> CharOf(ds[i])]
 BytesToMag(b) == MTrim(RevS(b))
 
 \* the definition, digit by digit
@@ -97,16 +105,12 @@ Lo(i) == B58F(BP(i) \o Fill(PLen(i) + 4, 0))
 Hi(i) == B58F(BP(i) \o Fill(PLen(i) + 4, 255))
 RowFact(i) == <<Len(Lo(i)), Len(Hi(i)), IsPrefix(HP(i), Lo(i)), IsPrefix(HP(i), Hi(i)),
                 \E j \in DOMAIN BP(i) : BP(i)[j] # 0>>
-RECURSIVE FactsUpTo(_)             \* an explicit tuple: TLC evaluates it once and keeps it
-FactsUpTo(n) == IF n = 0 THEN <<>> ELSE LET r == FactsUpTo(n - 1) IN Append(r, RowFact(n))
-RowFacts == FactsUpTo(Len(Rows))
-RowOK(i) == RowFacts[i] = <<ELen(i), ELen(i), TRUE, TRUE, TRUE>>
+RowOK(i) == i \in OKRows
 \* (ii) two rows that could match the same text / the same (prefix, payload length) request
 Overlap(i, j) == i # j /\ ELen(i) = ELen(j) /\ (IsPrefix(HP(i), HP(j)) \/ IsPrefix(HP(j), HP(i)))
 Overlaps == {<<i, j>> \in RowIds \X RowIds : i < j /\ Overlap(i, j)}
 EncDups == {<<i, j>> \in RowIds \X RowIds : i < j /\ HP(i) = HP(j) /\ PLen(i) = PLen(j)}
 BadChars == {i \in RowIds : ~AllDigits(HP(i))}
-TableOK == Overlaps = {} /\ EncDups = {}
 
 \* ---------------------------------------------------------------- inputs
 ClassPayload(c, n) ==
@@ -218,8 +222,11 @@ Unambiguous == pc = "done" /\ TableOK =>
 RejectedIsNoEncoding == pc = "done" /\ res[1] \in {"rej", "badlen", "off"} /\ inp[1] = "dec" =>
                           LET u == UnB58F(str) IN \A i \in RowIds : RowOK(i) => ~BytesOfRow(u, i)
 
+\* ---------------------------------------------------------------- once per run
+Designated == pc = "start" /\ cid = 0 /\ inp = AbsInput(1, CHOOSE c \in Classes : TRUE)
+\* the claims OKRows / TableOK are compared by the harness with the record printed below (RowFact is evaluated once)
+ClaimsRight == Designated => AlphabetRight
 \* ---------------------------------------------------------------- export for Leg B
-Emit == /\ (pc = "start" /\ cid = 0 /\ inp = AbsInput(1, CHOOSE c \in Classes : TRUE) =>
-              PrintT(<<"OUT", "table", RowFacts, Overlaps, EncDups, BadChars>>))
+Emit == /\ (Designated => PrintT(<<"OUT", "table", [i \in RowIds |-> RowFact(i)], Overlaps, EncDups, BadChars>>))
         /\ (pc = "done" /\ cid # 0 => PrintT(<<"OUT", "case", cid, erow, str, res>>))
 =============================================================================
